@@ -460,6 +460,15 @@ def _triggers_self(an: Analysis, fn, activity) -> bool:
         for p in normal)
 
 
+def _is_pair_of(expr, text: str) -> bool:
+    """``expr`` is the pair ``text`` evaluates to: the expression itself, or ``(text[0],
+    text[1])`` re-packed item by item (e.g. into a record)"""
+    if ast.unparse(expr) == text:
+        return True
+    return isinstance(expr, ast.Tuple) and len(expr.elts) == 2 and \
+        [ast.unparse(e) for e in expr.elts] == ['%s[0]' % text, '%s[1]' % text]
+
+
 def check_drain(check, an: Analysis, run_events: Callee, rule: str):
     """
     between two pops of the wait queue the popped deque is published as `_pending`, taken
@@ -475,33 +484,23 @@ def check_drain(check, an: Analysis, run_events: Callee, rule: str):
         for k, start in enumerate(pops):
             stop = pops[k + 1] if k + 1 < len(pops) else len(path.events)
             seg = path.events[start:stop]
-            # the deque is the second element of the popped pair
-            stmt = None
-            for e in seg[:6]:
-                if e.kind == 'store' and isinstance(e.get('stmt'), ast.Assign) and \
-                        isinstance(e['stmt'].targets[0], ast.Tuple):
-                    stmt = e['stmt']
-            if stmt is None:
-                verdict = False
-                bad = bad or (path, start)
-                continue
-            deque_name = ast.unparse(stmt.targets[0].elts[1])
+            # the deque is the second item of what was popped (a pair or a record)
+            deque_text = '%s[1]' % rules.value_text(path, start, path.events[start].node)
             n_seg += 1
             published = any(e.kind == 'store' and e['path'] == 'self._pending' and
-                            rules.value_text(path, start + seg.index(e), e['value'],
-                                             keep=(deque_name,))
-                            == deque_name for e in seg)
+                            e.data.get('value') is not None and
+                            rules.value_text(path, start + seg.index(e), e['value'])
+                            == deque_text for e in seg)
             publish_ok &= published
             takes = [e for e in seg if e.kind == 'call' and isinstance(e.node, ast.Call)
                      and isinstance(e.node.func, ast.Attribute)
                      and e.node.func.attr in ('popleft', 'pop', 'popright')
-                     and rules.value_text(path, start + seg.index(e), e.node.func.value,
-                                          keep=(deque_name,))
-                     == deque_name]
+                     and rules.value_text(path, start + seg.index(e), e.node.func.value)
+                     == deque_text]
             left_ok &= all(e.node.func.attr == 'popleft' for e in takes)
             # the next thing after the segment is only reached after testing it empty
             tests = [e for e in seg if e.kind == 'test' and rules.value_text(
-                path, start + seg.index(e), e.node, keep=(deque_name,)) == deque_name]
+                path, start + seg.index(e), e.node) == deque_text]
             drained = bool(tests) and tests[-1]['value'] is False
             if not drained and (k + 1 < len(pops) or path.normal):
                 verdict = False
@@ -581,8 +580,8 @@ def _check_waitqueues(check, an: Analysis, rule: str = 'L2'):
     for path in an.paths(an.callee(SD, 'pop')):
         if path.kind == 'return':
             n += 1
-            ok &= rules.value_text(path, len(path.events) - 1, path.outcome[1]) == \
-                'self._data.popitem(0)'
+            ok &= _is_pair_of(rules.value_expr(path, len(path.events) - 1, path.outcome[1]),
+                              'self._data.popitem(0)')
     check.instance(rule, 'SD.pop:popitem(0)', ok and n > 0, where_fn(sd_pop),
                    'SortedDict.popitem(0) is the smallest key (the default is the largest)')
     sd_push = an.callee(SD, 'push')
